@@ -324,3 +324,63 @@ func evKind(ev string) string {
 	}
 	return "custom"
 }
+
+// IsRESValue reports whether raw is a RES value as the protocol defines it: a
+// primitive, a reference {"rid":...}, a soft reference {"rid":...,"soft":true},
+// a data value {"data":...} or, where allowed, the delete action.
+func IsRESValue(raw json.RawMessage, allowDelete bool) bool {
+	raw = bytes.TrimSpace(raw)
+	if len(raw) == 0 || !json.Valid(raw) {
+		return false
+	}
+	switch raw[0] {
+	case '[':
+		return false
+	case '{':
+		m, err := decodeObject(raw)
+		if err != nil {
+			return false
+		}
+		var s string
+		var b bool
+		switch {
+		case len(m) == 1 && m["data"] != nil:
+			return true
+		case len(m) == 1 && m["rid"] != nil:
+			return json.Unmarshal(m["rid"], &s) == nil
+		case len(m) == 2 && m["rid"] != nil && m["soft"] != nil:
+			return json.Unmarshal(m["rid"], &s) == nil && json.Unmarshal(m["soft"], &b) == nil
+		case len(m) == 1 && m["action"] != nil:
+			return allowDelete && json.Unmarshal(m["action"], &s) == nil && s == "delete"
+		}
+		return false
+	}
+	return true
+}
+
+// ValidateEventValues checks that the values carried by a change or add event
+// are RES values (for events the library builds itself from stored values).
+func ValidateEventValues(event string, data []byte) []string {
+	m, err := decodeObject(data)
+	if err != nil {
+		return nil
+	}
+	var probs []string
+	switch event {
+	case "change":
+		vals, err := decodeObject(m["values"])
+		if err != nil {
+			return nil
+		}
+		for k, v := range vals {
+			if !IsRESValue(v, true) {
+				probs = append(probs, fmt.Sprintf("change event value of %q is not a RES value: %s", k, v))
+			}
+		}
+	case "add":
+		if v, ok := m["value"]; ok && !IsRESValue(v, false) {
+			probs = append(probs, fmt.Sprintf("add event value is not a RES value: %s", v))
+		}
+	}
+	return probs
+}
